@@ -199,7 +199,8 @@ inductive MicroStep (v : View) (i : Nat) (c0 : Core) : View → Prop
   | move (g : Core → Core) (h : Allowed v.transport c0 g) : MicroStep v i c0 (v.upd i g)
   | write (s : Nat) (hp : c0.phase = .waitT) (ht : v.transport = true) :
       MicroStep v i c0 ((v.emit (.write i c0.frag s c0.nfrags)).upd i fun c => { c with phase := .waitAck })
-  | fin (o : Outcome) : MicroStep v i c0 ((v.upd i toDone).emit (.done i o))
+  | fin (o : Outcome) (hp : c0.phase = .sendfrag ∨ c0.phase = .waitRsp) :
+      MicroStep v i c0 ((v.upd i toDone).emit (.done i o))
 
 theorem micro_view (st : St) (i : Nat) (r : Req) (hg : getReq st i = some r) :
     MicroStep (view st) i (core r) (view (runReq 1 st i)) := by
@@ -234,7 +235,7 @@ theorem micro_view (st : St) (i : Nat) (r : Req) (hg : getReq st i = some r) :
   | sendfrag =>
     simp only []
     split
-    · rw [view_unwind]; exact .fin _
+    · rw [view_unwind]; exact .fin _ (Or.inl hp)
     · rw [view_updReq st i _ (fun c => { c with phase := .waitT }) (fun x => rfl)]
       exact .move _ (Or.inr (Or.inr (Or.inl ⟨hp, rfl⟩)))
   | waitT =>
@@ -270,11 +271,96 @@ theorem micro_view (st : St) (i : Nat) (r : Req) (hg : getReq st i = some r) :
     simp only []
     cases r.got with
     | nothing => exact .stay
-    | cancelled => simp only []; rw [view_unwind]; exact .fin _
+    | cancelled => simp only []; rw [view_unwind]; exact .fin _ (Or.inr hp)
     | rsp =>
       simp only []
       split
-      · rw [view_finish, view_release]; exact .fin _
-      · rw [view_finish]; exact .fin _
+      · rw [view_finish, view_release]; exact .fin _ (Or.inr hp)
+      · rw [view_finish]; exact .fin _ (Or.inr hp)
+
+/-! ## an event = its immediate effect, then the run of the ready tasks -/
+
+/-- the immediate effect of an event, before any task runs; the flag says whether tasks are run afterwards -/
+def pre (st0 : St) (e : Ev) : St × Bool :=
+  let st := { st0 with out := [] }
+  match e with
+  | .start id key blocking nfrags timeout =>
+    if st.reqs.any (·.id == id) then (st, false) else
+    if !st.isOpen then (emit st (.done id .runtimeError), false) else
+    ({ st with reqs := st.reqs ++ [{ id, key, blocking, nfrags, timeout }],
+               listeners := st.listeners ++ [(id, key)], ready := st.ready ++ [id] }, true)
+  | .rxAck k =>
+    if k = st.pack then
+      let woken := (st.reqs.filter (·.phase == .waitAck)).map (·.id)
+      ({ st with pack := st.pack % 3 + 1,
+                 reqs := st.reqs.map fun r => if r.phase == .waitAck then { r with phase := .acked } else r,
+                 ready := st.ready ++ woken }, true)
+    else (st, true)
+  | .rxRsp key =>
+    let st := if st.transport then emit st .wack else st
+    match st.listeners.find? (fun l => l.2 == key) with
+    | none => (st, true)
+    | some (i, _) =>
+      let waiting := (getReq st i).map (·.phase == .waitRsp) |>.getD false
+      let st := updReq { st with listeners := st.listeners.filter (·.1 != i) } i fun r => { r with got := .rsp }
+      ((if waiting then { st with ready := st.ready ++ [i] } else st), true)
+  | .tick =>
+    match nextDeadline st with
+    | none => (st, false)
+    | some d =>
+      let st := { st with now := max st.now d }
+      let expiredAck := (st.reqs.filter fun (r : Req) => r.phase == Phase.waitAck && r.deadline ≤ st.now).map (·.id)
+      let st := { st with reqs := st.reqs.map fun (r : Req) =>
+                            if r.phase == Phase.waitAck && r.deadline ≤ st.now then { r with phase := Phase.acked } else r,
+                          ready := st.ready ++ expiredAck }
+      let expiredRsp := (st.reqs.filter fun (r : Req) => r.phase == Phase.waitRsp && r.deadline ≤ st.now && r.got == Got.nothing).map (·.id)
+      (expiredRsp.foldl (fun s i => unwind s i .timeoutError) st, true)
+  | .cancel id =>
+    match getReq st id with
+    | none => (st, false)
+    | some r => if r.phase == .done then (st, false) else (unwind st id .cancelled, true)
+  | .close =>
+    if st.resetting then
+      ((if st.isOpen then { (emit st .closeOut) with transport := false, pack := 0, isOpen := false } else st), true)
+    else
+      let waiting := (st.listeners.filter fun l => ((getReq st l.1).map (·.phase == .waitRsp)).getD false).map (·.1)
+      let ids := st.listeners.map (·.1)
+      let st := { st with reqs := st.reqs.map fun r => if ids.contains r.id then { r with got := .cancelled } else r,
+                          listeners := [], ready := st.ready ++ waiting }
+      ((if st.isOpen then { (emit st .closeOut) with transport := false, pack := 0, isOpen := false } else st), true)
+  | .lost =>
+    let st := { st with isOpen := false }
+    ((if st.resetting then st else emit st .appLost), true)
+  | .setReset b => ({ st with resetting := b }, false)
+
+theorem step_eq_pre (st : St) (e : Ev) :
+    step st e = cond (pre st e).2 (settle settleFuel (pre st e).1) (pre st e).1 := by
+  cases e with
+  | start id key blocking nfrags timeout =>
+    simp only [step, pre]
+    split
+    · rfl
+    · split <;> rfl
+  | rxAck k => simp only [step, pre]; split <;> rfl
+  | rxRsp key =>
+    simp only [step, pre]
+    generalize (if ({ st with out := [] } : St).transport = true then emit ({ st with out := [] } : St) Out.wack
+      else ({ st with out := [] } : St)) = st1
+    cases st1.listeners.find? (fun l => l.2 == key) with
+    | none => rfl
+    | some p => obtain ⟨i, k⟩ := p; rfl
+  | tick =>
+    simp only [step, pre]
+    split
+    · rename_i h; rw [h]; rfl
+    · rename_i d h; rw [h]; rfl
+  | cancel id =>
+    simp only [step, pre]
+    split
+    · rename_i h; rw [h]; rfl
+    · rename_i r h; rw [h]; simp only []; split <;> rfl
+  | close => simp only [step, pre]; split <;> rfl
+  | lost => simp only [step, pre]; rfl
+  | setReset b => rfl
 
 end Zboss.Host
